@@ -113,10 +113,10 @@ let handle (w : string list) : string =
   | ["t2bound"; dend] -> zs (t2_demand_bound (zi dend)) ^ " " ^ zs (t2_cmds_max (t2_demand_bound (zi dend)))
   | ["t1cmds"; d] -> zs (t1_cmds_max (zi d))
   | ["t3sess"; idm; sys; script] ->
-      let ((r1, r2), s) = t3_session (bytes_of_hex idm) (zi sys) { a_script = script_of script; a_sent = [] } in
+      let ((r1, r2), s) = t3_session (bytes_of_hex idm) (zi sys) { a_script = script_of script; a_sent = []; a_blocks = [] } in
       Printf.sprintf "r1=%s | r2=%s | sent=%s" (show_res show_fresh r1) (show_second r2) (hexlist (List.rev s.a_sent))
   | ["t4sess"; script] ->
-      let ((r1, r2), c) = t4_session { c_script = List.map ares_of (split_on ',' script); c_apdus = [] } in
+      let ((r1, r2), c) = t4_session { c_script = List.map ares_of (split_on ',' script); c_apdus = []; c_reads = [] } in
       Printf.sprintf "r1=%s | r2=%s | sent=%s" (show_res show_fresh r1) (show_second r2) (hexlist (List.rev c.c_apdus))
   | ["t3rsp"; code; sendidm; idm; rsp] ->
       show_res hex_of_bytes (t3_rsp_any (zi code) (sendidm = "1") (bytes_of_hex idm) (bytes_of_hex rsp))
